@@ -761,7 +761,8 @@ func (m *model) step(t ev.TB, a action) bool {
 		m.usedSer[a.RootCN+"\x00"+a.RootSerial] = true
 	case "rotate":
 		if err, pan := w.rotate(a); err != nil || pan != nil {
-			if a.Collide && pan == nil {
+			if pan == nil && (a.Collide || strings.Contains(err.Error(), "overwrite not enabled")) {
+				// (a default-next serial can also land on an earlier override's certificate name)
 				// refusing a rotation whose certificate would take an existing certificate's name is fine;
 				// the history goes on with the old primary
 				ev.Class("history", "colliding-serial-rotation/refused")
